@@ -149,11 +149,24 @@ type command struct {
 	quiets  []bool
 	noopEnd bool
 	noopOpaque uint32
+	collect *bool // when set, expect() conjoins its conditions here instead of asserting them
+}
+
+func (c *command) ck(id string, cond bool) {
+	if c.collect != nil {
+		*c.collect = rt.And(*c.collect, cond)
+		return
+	}
+	rt.Assert(id, cond)
 }
 
 func newCommand(p string, nk, dlen, maxGetKeys int) *command {
 	c := &command{}
-	c.kind = rt.Choice(p+"cmd", nCmds)
+	if k := rt.Param(p+"cmd", -1); k >= 0 {
+		c.kind = k
+	} else {
+		c.kind = rt.Choice(p+"cmd", nCmds)
+	}
 	if c.kind == cmdGet {
 		n := 1 + rt.Choice(p+"nkeys", maxGetKeys)
 		for j := 0; j < n; j++ {
@@ -208,19 +221,19 @@ func (c *command) expect(ref *model.Store, now int64, log []model.Reply, p strin
 		for j, r := range log {
 			if r.Kind == "getend" && j != len(log)-1 {
 				// must be one the binary responder renders as nothing
-				rt.Assert(p+"-get-intermediate-terminator-silent", rt.Not(r.NoopEnd))
+				c.ck(p+"-get-intermediate-terminator-silent", rt.Not(r.NoopEnd))
 				continue
 			}
 			norm = append(norm, r)
 		}
 		log = norm
-		rt.Assert(p+"-get-reply-count", len(log) == n+1)
+		c.ck(p+"-get-reply-count", len(log) == n+1)
 		if len(log) != n+1 {
 			return
 		}
 		end := log[n]
-		rt.Assert(p+"-get-terminator-last", end.Kind == "getend")
-		rt.Assert(p+"-get-terminator-fields", rt.And(end.Opaque == c.noopOpaque, end.NoopEnd == c.noopEnd))
+		c.ck(p+"-get-terminator-last", end.Kind == "getend")
+		c.ck(p+"-get-terminator-fields", rt.And(end.Opaque == c.noopOpaque, end.NoopEnd == c.noopEnd))
 		// each requested position is answered by exactly one frame; order of the value frames is free
 		match := func(j int, r model.Reply) bool {
 			if r.Kind != "get" || r.Key != c.keys[j] {
@@ -238,9 +251,9 @@ func (c *command) expect(ref *model.Store, now int64, log []model.Reply, p strin
 		}
 		switch n {
 		case 1:
-			rt.Assert(p+"-get-values", match(0, log[0]))
+			c.ck(p+"-get-values", match(0, log[0]))
 		case 2:
-			rt.Assert(p+"-get-values", rt.Or(rt.And(match(0, log[0]), match(1, log[1])), rt.And(match(0, log[1]), match(1, log[0]))))
+			c.ck(p+"-get-values", rt.Or(rt.And(match(0, log[0]), match(1, log[1])), rt.And(match(0, log[1]), match(1, log[0]))))
 		}
 		return
 	}
@@ -263,45 +276,45 @@ func (c *command) expect(ref *model.Store, now int64, log []model.Reply, p strin
 		class = ref.Touch(k, c.ttl, now)
 	case cmdGat:
 		hit, data, flags := ref.Get(k)
-		rt.Assert(p+"-one-reply", len(log) == 1)
+		c.ck(p+"-one-reply", len(log) == 1)
 		if len(log) != 1 {
 			return
 		}
 		r := log[0]
-		rt.Assert(p+"-gat-kind", r.Kind == "gat")
+		c.ck(p+"-gat-kind", r.Kind == "gat")
 		if r.Kind != "gat" {
 			return
 		}
 		if r.Miss {
-			rt.Assert(p+"-gat-miss-iff-absent", !hit)
+			c.ck(p+"-gat-miss-iff-absent", !hit)
 		} else {
-			rt.Assert(p+"-gat-hit-iff-present", hit)
+			c.ck(p+"-gat-hit-iff-present", hit)
 			if hit {
-				rt.Assert(p+"-gat-value", len(r.Data) == len(data) && rt.And(rt.BytesEq(r.Data, data), r.Flags == flags))
+				c.ck(p+"-gat-value", len(r.Data) == len(data) && rt.And(rt.BytesEq(r.Data, data), r.Flags == flags))
 			}
 		}
-		rt.Assert(p+"-gat-opaque", r.Opaque == c.opaque)
+		c.ck(p+"-gat-opaque", r.Opaque == c.opaque)
 		if hit {
 			ref.Touch(k, c.ttl, now)
 		}
 		return
 	}
-	rt.Assert(p+"-one-reply", len(log) == 1)
+	c.ck(p+"-one-reply", len(log) == 1)
 	if len(log) != 1 {
 		return
 	}
 	r := log[0]
 	if class == model.OK {
-		rt.Assert(p+"-success-reply", r.Kind == cmdName[c.kind])
-		rt.Assert(p+"-opaque-echo", r.Opaque == c.opaque)
+		c.ck(p+"-success-reply", r.Kind == cmdName[c.kind])
+		c.ck(p+"-opaque-echo", r.Opaque == c.opaque)
 		if c.kind <= cmdPrepend {
-			rt.Assert(p+"-quiet-passed", r.Quiet == c.quiet)
+			c.ck(p+"-quiet-passed", r.Quiet == c.quiet)
 		}
 	} else {
-		rt.Assert(p+"-error-reply", r.Kind == "error")
+		c.ck(p+"-error-reply", r.Kind == "error")
 		if r.Kind == "error" {
-			rt.Assert(p+"-error-class", model.ClassOf(r.Err) == class)
-			rt.Assert(p+"-opaque-echo", r.Opaque == c.opaque)
+			c.ck(p+"-error-class", model.ClassOf(r.Err) == class)
+			c.ck(p+"-opaque-echo", r.Opaque == c.opaque)
 		}
 	}
 }
